@@ -62,6 +62,8 @@ def classify(cfg):
             out["gpo_half0"] = bool(N >= 1 and math.floor(n / (2 * N)) == 0)
     if a == "VROOM":
         out["binary_children"] = A.arity(cfg["kind"], cfg["K"], cfg["D"]) == 2
+    if any(not math.isfinite(b[0] + b[1]) for b in cfg["box"]):
+        out["midpoint_overflows"] = True
     return out
 
 
@@ -99,6 +101,11 @@ def make_cfgs(tier):
     for (algo, prm, n, T) in corners:
         i += 1
         cfgs.append({"id": i, "algo": algo, "kind": "bin", "K": 2, "D": 1, "box": [[0.0, 1.0]], "n": n, "T": T, "prm": prm, "pattern": "noisy", "seed": rnd.randrange(1 << 30), "timeout": 30})
+    # the ends of the float range: tiny, subnormal, huge, and a box whose bounds sum overflows (finding F15)
+    for j, box in enumerate(([[1e-300, 2e-300]], [[5e-324, 1e-323]], [[-1e150, 1e150]], [[1.0, 1.0000000000000002]], [[1e307, 1.7e308]])):
+        for algo in ("T_HOO", "SOO", "Zooming"):
+            i += 1
+            cfgs.append({"id": i, "algo": algo, "kind": rnd.choice(["bin", "kary", "rbin"]), "K": 3, "D": 1, "box": box, "n": 100, "T": 60, "prm": {}, "pattern": "noisy", "seed": rnd.randrange(1 << 30), "timeout": 30, "sessiononly": not math.isfinite(box[0][0] + box[0][1])})
     return cfgs
 
 
